@@ -34,6 +34,8 @@ type instance struct {
 	terminated          bool
 	termKind            string
 	termAfterClientDone bool
+	termTokened         bool        // its terminal was an error that named the operation (an engine failure, not a cancellation)
+	refusedCause        string      // legacy: its start was refused as a duplicate although the id was free; cause class of that refusal
 	seen                int         // data messages observed for it (in any state)
 	pendingDup          bool        // its id had an open instance when the subscribe was taken; decided at the next client message
 	blockers            []*instance // the open instances that were in the way
@@ -544,9 +546,12 @@ func (m *machine) opMsg(i int, typ string, w wireMsg, raw string) {
 			// no start of this id is in doubt: the engine refuses a start whose id the trace shows free
 			cause := "other"
 			if st.last != nil && !st.last.terminated && st.last.seen == 0 && st.prev != nil && st.prev.terminated {
-				if st.prev.termKind == "error" && st.prev.kind == kSubSub {
+				switch {
+				case st.prev.termKind == "error" && st.prev.kind == kSubSub && st.prev.termTokened:
 					cause = "subscription-error-continues"
-				} else {
+				case st.prev.refusedCause != "":
+					cause = st.prev.refusedCause // the id is still held by whatever caused the previous refusal
+				default:
 					cause = "terminal-sent-id-not-released"
 				}
 			}
@@ -554,7 +559,7 @@ func (m *machine) opMsg(i int, typ string, w wireMsg, raw string) {
 			if st.last != nil && !st.last.terminated && st.last.seen == 0 {
 				// that start is dead now; the error stands as its terminal
 				in = st.last
-				in.terminated, in.termKind = true, "error"
+				in.terminated, in.termKind, in.refusedCause = true, "error", cause
 				m.terminals++
 				for k, o := range st.open {
 					if o == in {
@@ -611,13 +616,20 @@ func (m *machine) opMsg(i int, typ string, w wireMsg, raw string) {
 	if in.terminated {
 		cause := "other"
 		switch {
+		case in.kind == kSubSub && in.termKind == "error" && in.termTokened:
+			// the engine reports the failure of a subscription and keeps polling it: for the engine the
+			// operation is still active (it answers a complete, refuses the id, emits again)
+			cause = "subscription-error-continues"
+			if typ == "complete" && !tokened && st.lateStops > 0 {
+				st.lateStops--
+			}
+		case in.refusedCause != "":
+			cause = in.refusedCause
 		case typ == "complete" && !tokened && st.lateStops > 0:
 			st.lateStops--
 			cause = "stop-terminated" // the client completed an id whose terminal had been sent; the server answered again
 		case in.clientDone && in.termAfterClientDone:
 			cause = "stop-active" // the client completed an active id; the server answered AND the engine went on emitting
-		case in.termKind == "error" && in.kind == kSubSub:
-			cause = "subscription-error-continues" // the engine keeps polling a subscription after reporting its error
 		}
 		m.violate(i, "after-terminal", fmt.Sprintf("%s for id %s after the server's terminal %s for it (operation of step %d, %s; cause class %s)", typ, w.ID, in.termKind, in.token, optypeName(in.kind), cause),
 			map[string]string{"late": typ, "terminal": in.termKind, "cause": cause, "optype": optypeName(in.kind)})
@@ -629,6 +641,7 @@ func (m *machine) opMsg(i int, typ string, w wireMsg, raw string) {
 	case "error", "complete":
 		in.terminated = true
 		in.termKind = typ
+		in.termTokened = tokened && typ == "error"
 		in.termAfterClientDone = in.clientDone
 		m.terminals++
 		for k, o := range st.open {
@@ -751,7 +764,7 @@ func (m *machine) serverClose(i int, e traceEv) {
 			if mm := closeIDRe.FindStringSubmatch(e.Reason); mm != nil {
 				if st := m.ids[mm[1]]; st != nil && st.prev != nil && st.prev.terminated {
 					// the subscribe that was refused is st.last; the id was last used by st.prev
-					if st.prev.termKind == "error" && st.prev.kind == kSubSub {
+					if st.prev.termKind == "error" && st.prev.kind == kSubSub && st.prev.termTokened {
 						cause = "subscription-error-continues"
 					} else {
 						cause = "terminal-sent-id-not-released"
